@@ -226,13 +226,14 @@ func init() {
 			for _, z := range zones {
 				b = append(b, Batch{Mode: "tz", Env: []string{"TZ=" + z}, Timeout: 20 * time.Minute, Procs: 4})
 			}
-			return b
+			// a listener that hears nothing for 33 s (thorough: 33 s, 65 s, 125 s): still one session, the address bound all the time
+			return append(b, same(n(tier, 1, 3), Batch{Mode: "idle", Timeout: 20 * time.Minute, Procs: 2})...)
 		}}
 }
 
 func init() {
 	specs["C11"] = &Spec{ID: "C11", Level: "exploration", Parallel: 6,
-		Assumptions: []string{hookAssumption, loopAssumption, "a reply counts as received before the timeout only if it measurably left the farm within 0.6 T; replies sent between 0.6 T and T+0.3 s are don't-care", "a get-device reply whose date is BCD-clean but not a calendar date may yield an entry with the zero date or no entry", "serial number 0 in a reply is not generated (the statement is silent)"},
+		Assumptions: []string{hookAssumption, loopAssumption, "a reply counts as received before the timeout only if it measurably left the farm within 0.6 T; replies sent between 0.6 T and T+0.3 s are don't-care", "a get-device reply whose date is BCD-clean but not a calendar date may yield an entry with the zero date or no entry", "a reply that reports serial number 0 is a well-formed reply like any other ('all field values'): one entry"},
 		Plan: func(tier string) []Batch {
 			b := same(n(tier, 4, 8), Batch{Mode: "hook", Timeout: 20 * time.Minute})
 			b = append(b, same(n(tier, 1, 3), Batch{Mode: "loopback", Timeout: 30 * time.Minute, Procs: 8})...)
